@@ -8,8 +8,15 @@ prop("C06", "exploration",
      "the target-setup function per request (ok / fails before the handshake / fails after the callback accepted; it invokes the "
      "verification callback inside setup and fails if that fails, as hopclient.setupTargetClient does), a target behaviour per "
      "forwarded intent (scripted: confirm / deny(reason) / close / garbage+close / close mid-message; or the real "
-     "StartTargetInstance with recording checkIntent/addAuthGrant stubs that accept / refuse / fail to store), and optionally a "
-     "malformed message after the last request. How the delegate puts the requests on the wire is drawn too: strictly request / "
+     "StartTargetInstance with recording checkIntent/addAuthGrant stubs that accept / refuse / fail to store), a TARGET ANSWER DELAY "
+     "per request (in a third of the cases each target - scripted or real - takes a drawn 0, 1, 4, 6, 30 or 120 virtual seconds before "
+     "it acts on that request's intent communication; the delegate waits as long as it takes for every answer it is owed; what a target "
+     "does is attributed to the request that was in flight when the principal wrote the bytes it is acting on, so a late answer still "
+     "belongs to its own request), and MALFORMED MESSAGES: optionally one after the last request and, in one case of eight, one IN PLACE "
+     "of a request at any position (first / middle / last, alone or inside a send-ahead group) - a message the request format refuses, "
+     "mostly partway through: start or expiry time beyond the signed 64-bit range, name block below its minimum size, id chunk above 512 "
+     "bytes, unknown message types 9/255 with a whole body trailing, a confirmation, a denial or a complete intent communication where a "
+     "request is expected (a truncated request followed by the delegate leaving only as trailer). How the delegate puts the requests on the wire is drawn too: strictly request / "
      "answer / request (as the project's own delegate does), or SEND-AHEAD - some or all requests are written right behind their "
      "predecessor before the outstanding answers are read (groups of 2..6) - and the byte stream may pause (everybody else runs until "
      "blocked) between two requests sent ahead or inside a request after a drawn number of bytes, so that what arrives coalesced varies "
@@ -20,18 +27,32 @@ prop("C06", "exploration",
      "request: no byte is written on a target connection without an earlier accepting callback invocation for that request, none "
      "at all if the callback refused; forwarded bytes decode to the approved and to the requested intent field for field; the "
      "delegate reads exactly one answer before one virtual second of silence; a confirmation only if the target confirmed that "
-     "request (real target: addAuthGrant ran and returned nil). Non-trivial = >=2 requests with at least one refusal and one "
-     "approval, or a target/setup failure occurred; distinct by (variant, trailer, per request: decision, target index, observed "
-     "callback/setup/target events). Every connection of a case hands its bytes to the reader in a drawn delivery pattern (whole, one byte per "
+     "request (real target: addAuthGrant ran and returned nil). A malformed message is not a request: nothing is written on a target "
+     "connection and no confirmation is read for it, and the delegate reads at most one answer to it; the requests behind a malformed "
+     "message are not judged one by one (the statement is silent about them, the project's principal hangs up), only by count: at no time "
+     "has the delegate read more answers than the number of messages it has completely written. Non-trivial = >=2 requests with at least one refusal and one "
+     "approval, or a target/setup failure occurred; distinct by (variant, trailer, kind and position of the malformed message, per request: decision, target "
+     "index, observed callback/setup/target events, target delay where the request reached a target); decisions and target failures count "
+     "only for the requests in front of a malformed message. Every connection of a case hands its bytes to the reader in a drawn delivery pattern (whole, one byte per "
      "Read, keyed chunks of 1..7 bytes, optionally the last bytes together with io.EOF - all allowed by io.Reader and done by "
      "tubes). Transport part (unit approval-callback): the principal approves the FIRST intent of a delegate "
      "connection through the additional verify callback of its handshake with the target (hopclient.setupTargetClient); the whole "
      "matrix mode {discoverable, hidden} x InsecureSkipVerify x trust {store, authorized key, both, neither} x expected name "
      "{server's, none, other} x callback decision {approve, refuse, approve iff target key, refuse iff target key} (192 cases) plus "
      "rapid-drawn repetitions with three address families: a client handshake completes only if the callback was consulted, was "
-     "shown the target's certificate and returned nil; non-trivial there = refusing callback or InsecureSkipVerify.",
+     "shown the target's certificate and returned nil; non-trivial there = refusing callback or InsecureSkipVerify. "
+     "Grant store (units grant-store, also under the race detector; the test is shared with C05 / C07 and runs its mode 'store' only "
+     "here): what the real target turns into a confirmation is the nil return of its addAuthGrant callback, in a server "
+     "hopserver.HopServer.AddAuthGrant. 2..6 real goroutines (spin barrier, drawn Gosched counts) store 1..3 grants each at the same "
+     "time for ONE (user, delegate key) - or for 2..4 keys of that user - while 0..3 further goroutines log in as that pair; then the "
+     "server map is drained. Every grant whose AddAuthGrant returned nil must come out of the store exactly once (handed to one "
+     "admission or found by the drain): never lost, never twice; non-trivial there = at least two storing goroutines.",
      ["approval callback is never nil (nil is documented as accept-all)",
-      "requests are well formed and within the framing limits the encoder supports (names <= 252, strings <= 255, times >= 0); "
+      "the statement sets no time limit for an answer: a principal may wait for a slow target or give up and deny; either way each request "
+      "gets exactly one answer and a confirmation only if the target confirmed THAT request (a late answer of the target is not the answer to a later request)",
+      "a message that the documented request format refuses (time >= 2^63 s, name block < 3 bytes, id chunk > 512 bytes, message type other "
+      "than 1) is not a request: zero answers (hanging up) or one denial are both accepted for it",
+      "well-formed requests are within the framing limits the encoder supports (names <= 252, strings <= 255, times >= 0); "
       "grant types 3 and 4 are excluded because their encoder is unimplemented (panics) - see C11/C18",
       "refusal reasons <= 200 bytes so that the principal's prefixed denial fits the one-byte string length (longer ones hit the C18 WriteString wrap)",
       "a delegate may write further complete requests before it has read the outstanding answers: the delegate connection is a reliable "
@@ -43,7 +64,10 @@ prop("C06", "exploration",
       "a target that misbehaves always ends by answering or closing (a target that stalls forever cannot be answered for)",
       "the target-setup model is hopclient.setupTargetClient as read in the source; a failed setup returns no connection"],
      [dict(name="histories", pkg="authgrants", run="^TestVerifC06Histories$", shards=dict(quick=12, thorough=16), thorough_scale=25),
-      dict(name="approval-callback", pkg="transport", run="^TestVerifC06ApprovalCallback(Random)?$", shards=dict(quick=4, thorough=8), thorough_scale=20)],
+      dict(name="approval-callback", pkg="transport", run="^TestVerifC06ApprovalCallback(Random)?$", shards=dict(quick=4, thorough=8), thorough_scale=20),
+      # the grant store behind the target's addAuthGrant callback (hopserver.HopServer.AddAuthGrant): shared with C05 / C07, mode "store" only
+      dict(name="grant-store", pkg="hopserver", run="^TestVerifC07ConcurrentAdmission$", shards=dict(quick=6, thorough=16), thorough_scale=20),
+      dict(name="grant-store-race", pkg="hopserver", race=True, run="^TestVerifC07ConcurrentAdmission$", shards=dict(quick=4, thorough=8), thorough_scale=10)],
      text="History-invariant search: generated request/decision/target-behaviour scripts are run against the real principal "
           "(and optionally the real target instance) over in-memory connections under a virtual clock; every byte the principal "
           "writes towards a target, every callback invocation with its arguments and result, and every answer read by the "
